@@ -1494,3 +1494,225 @@ Proof.
   intros c s st univ seen fired tr sc pcode pnc pcb k. split;
     [apply model_passes_C08_clause_2_lemma|apply model_passes_C08_clause_6_lemma].
 Qed.
+
+(** ** the correspondence of the model with its own projection: all maps have distinct keys *)
+Definition KInv (s : state) : Prop :=
+  NoDup (keys (binds s)) /\ NoDup (keys (vols s)) /\ NoDup (keys (newmark s)) /\ NoDup (keys (expmark s)).
+Definition kr (s s' : state) : Prop := KInv s -> KInv s'.
+Lemma kr_refl s : kr s s.
+Proof. intros H. exact H. Qed.
+Lemma kr_trans s1 s2 s3 : kr s1 s2 -> kr s2 s3 -> kr s1 s3.
+Proof. intros A B H. apply B, A, H. Qed.
+
+Ltac kr_close :=
+  let A := fresh in let B := fresh in let C := fresh in let D := fresh in
+  intros (A & B & C & D); unfold KInv; simpl;
+  repeat split; repeat first [assumption | apply keys_set_NoDup | apply keys_del_NoDup].
+Ltac kr_frame H := repeat dmn H; inversion H; subst; clear H; kr_close.
+
+Lemma respond_kr c s rid prov kind s' : respond c s rid prov kind = Okk s' -> kr s s'.
+Proof.
+  intros H. unfold respond in H. destruct rid as [[[id batch] hh] ii].
+  destruct ((0 <=? prov) && negb (kind =? 2)); cbv beta iota zeta delta [negb] in H; [|discriminate].
+  match type of H with context [@get reqid request ?i ?k (reqs s)] =>
+    destruct (@get reqid request i k (reqs s)) as [q|] eqn:Eq end; [|discriminate].
+  destruct (get id (ctxs s)) as [x|] eqn:Ex; [|discriminate].
+  destruct (q_prov q =? prov) eqn:Ep; cbv beta iota zeta delta [negb] in H; [|discriminate].
+  destruct (q_active q); cbv beta iota zeta delta [negb] in H; [|discriminate].
+  destruct (add_earned_fee c s prov (q_fd q) (q_fee q)) as [s1|] eqn:Ef; [|discriminate].
+  assert (F : binds s1 = binds s /\ vols s1 = vols s /\ newmark s1 = newmark s /\ expmark s1 = expmark s /\ ctxs s1 = ctxs s).
+  { unfold add_earned_fee in Ef. destruct (send _ _ _ _ _); [|discriminate].
+    destruct (q_fee q <? _); [discriminate|]. inversion Ef; subst. repeat split; reflexivity. }
+  destruct F as (F1 & F2 & F3 & F4 & F5). intros (A & B & C & D).
+  destruct (x_bresp (cx_bresp x (x_bresp x + 1)) =? x_breq (cx_bresp x (x_bresp x + 1)));
+    [destruct (x_mod (cx_bresp x (x_bresp x + 1)))|]; inversion H; subst s'; clear H; unfold KInv; simpl;
+    try (unfold callback; simpl; rewrite F5, Ex; simpl); rewrite ?F1, ?F2, ?F3, ?F4;
+    repeat split; repeat first [assumption | apply keys_set_NoDup].
+Qed.
+
+Lemma exec_msg_plain_kr c s txh m s' : exec_msg_plain c s txh m = Okk s' -> kr s s'.
+Proof.
+  intros H. destruct m; simpl in H.
+  - unfold define in H. kr_frame H.
+  - unfold bind in H. kr_frame H.
+  - unfold update_binding in H. kr_frame H.
+  - unfold set_withdraw in H. kr_frame H.
+  - unfold enable in H. kr_frame H.
+  - unfold disable in H. kr_frame H.
+  - unfold refund_deposit in H. kr_frame H.
+  - unfold call in H. destruct (negb _); [discriminate|].
+    destruct (create_context _ _ _ _ _ _ _ _ _ _ _ _ _ _ _ _) as [[s1 id]|] eqn:E; [|discriminate].
+    inversion H; subst. unfold create_context in E. kr_frame E.
+  - eapply respond_kr. exact H.
+  - unfold msg_ctl, k_pause in H. kr_frame H.
+  - unfold msg_ctl, k_start in H. kr_frame H.
+  - unfold msg_ctl, k_kill in H. kr_frame H.
+  - unfold update_context in H. kr_frame H.
+  - unfold withdraw in H. kr_frame H.
+Qed.
+
+Lemma call_module_kr c s txh svc provs cons inok capd capa timeout rep freq total s' :
+  call_module c s txh svc provs cons inok capd capa timeout rep freq total = Okk s' -> kr s s'.
+Proof.
+  unfold call_module. intros H. destruct (negb _); [discriminate|].
+  destruct (create_context c s txh svc [c_mprov c] cons inok capd capa 1 false 0 0 0 0 false) as [[s1 id]|] eqn:E1; [|discriminate].
+  assert (I1 : kr s s1) by (clear H; unfold create_context in E1; kr_frame E1).
+  destruct (get id (ctxs s1)) as [x|] eqn:Ex; [|discriminate].
+  destruct (filter_provs s1 x (x_provs x)) as [[|p0 ps]|]; try discriminate.
+  destruct (debit_all (led s1) (x_cons x) (total_fees s1 x [c_mprov c])) as [l|]; [|discriminate].
+  set (s2 := initiate_ms (with_led s1 (credit_all l REQ (total_fees s1 x [c_mprov c]))) id x [c_mprov c]) in *.
+  assert (I2 : kr s1 s2) by (subst s2; kr_close).
+  destruct (respond c s2 (id, x_batch x + 1, height s, 0) (c_mprov c) 1) as [s3| |] eqn:Er; try discriminate.
+  pose proof (respond_kr _ _ _ _ _ _ Er) as I3. cbv beta iota in H. injection H as <-.
+  eapply kr_trans; [exact I1|]. eapply kr_trans; [exact I2|]. eapply kr_trans; [exact I3|]. kr_close.
+Qed.
+
+Lemma exec_msg_kr c s txh m s' : exec_msg c s txh m = Okk s' -> kr s s'.
+Proof.
+  intros H. destruct m; cbn [exec_msg] in H; try (eapply exec_msg_plain_kr; eassumption).
+  - destruct (module_served c svc); [discriminate|].
+    eapply (exec_msg_plain_kr c s txh (MBind svc prov depd depa pr qos optok owner)); exact H.
+  - destruct (module_served c svc); [eapply call_module_kr; exact H|].
+    eapply (exec_msg_plain_kr c s txh (MCall svc provs cons inok capd capa timeout rep freq total)); exact H.
+Qed.
+
+Lemma expire_kr c x s e : kr s (expire_request c x s e).
+Proof.
+  destruct e as [rid q]. unfold expire_request, slash.
+  destruct (get (x_svc x, q_prov q) (binds s)) as [b|]; [|destruct (send _ _ _ _ _); kr_close].
+  destruct (b_dep b <? _); [destruct (send _ _ _ _ _); kr_close|].
+  destruct (send (led s) DEP TAX BASE _) as [l|]; [|destruct (send _ _ _ _ _); kr_close].
+  cbv zeta. destruct (send _ _ _ _ _); kr_close.
+Qed.
+
+Lemma expired_handler_kr c s id : kr s (expired_batch_handler c s id).
+Proof.
+  unfold expired_batch_handler. destruct (get id (ctxs s)) as [x|]; [|apply kr_refl].
+  set (pr := if x_brun x then _ else (s, x)).
+  assert (H1 : kr s (fst pr)).
+  { subst pr. destruct (x_brun x); [|apply kr_refl]. simpl.
+    assert (F : kr s (fold_left (expire_request c x) (filter (fun e => in_batch id (x_batch x) e && q_active (snd e)) (reqs s)) s)).
+    { apply (fold_left_inv (fun t => kr s t)); [|apply kr_refl]. intros t e Ht. eapply kr_trans; [exact Ht|apply expire_kr]. }
+    destruct (x_mod x); [|exact F]. eapply kr_trans; [exact F|]. unfold callback. destruct (get id (ctxs _)); kr_close. }
+  destruct pr as [s1 x1]. simpl in H1. cbv zeta. eapply kr_trans; [exact H1|].
+  destruct (x_state x1 =? 2); destruct (x_state x1 =? 0); try destruct (x_rep x1 && _); kr_close.
+Qed.
+
+Lemma new_handler_kr s id : kr s (new_batch_handler s id).
+Proof.
+  unfold new_batch_handler. destruct (get id (ctxs s)) as [x|]; [|apply kr_refl].
+  destruct (x_state x =? 0); [|kr_close].
+  destruct (filter_provs s x (x_provs x)) as [ps|]; [|kr_close].
+  cbv zeta. destruct (_ && _); [|kr_close].
+  destruct (debit_all _ _ _); [kr_close|].
+  unfold on_paused. destruct (x_mod x); kr_close.
+Qed.
+
+Lemma apply_kr c s st : kr s (apply c s st).
+Proof.
+  unfold apply. destruct (exec_step c s st) as [s'| |] eqn:E; try apply kr_refl.
+  destruct st; cbn [exec_step] in E.
+  - eapply exec_msg_kr. exact E.
+  - destruct (0 <=? dt); [|discriminate]. inversion E; subst. unfold end_block. cbv zeta.
+    set (s1 := fold_left (expired_batch_handler c) _ s).
+    assert (H1 : kr s s1).
+    { subst s1. apply (fold_left_inv (fun t => kr s t)); [|apply kr_refl].
+      intros t id Ht. eapply kr_trans; [exact Ht|apply expired_handler_kr]. }
+    set (s2 := fold_left new_batch_handler _ s1).
+    assert (H2 : kr s s2).
+    { subst s2. apply (fold_left_inv (fun t => kr s t)); [|exact H1].
+      intros t id Ht. eapply kr_trans; [exact Ht|apply new_handler_kr]. }
+    eapply kr_trans; [exact H2|]. clearbody s2. kr_close.
+  - inversion E; subst. kr_close.
+  - kr_frame E.
+  - destruct (create_context _ _ _ _ _ _ _ _ _ _ _ _ _ _ _ _) as [[s1 id]|] eqn:E1; [|discriminate].
+    inversion E; subst. unfold create_context in E1. kr_frame E1.
+  - unfold k_pause in E. kr_frame E.
+  - unfold k_start in E. kr_frame E.
+  - unfold k_kill in E. kr_frame E.
+  - unfold bind in E. kr_frame E.
+Qed.
+
+Lemma reach_KI c steps : forall s, KInv s -> KInv (run c s steps).
+Proof. induction steps as [|st r IH]; intros s H; [exact H|]. cbn [run]. apply IH. apply apply_kr. exact H. Qed.
+
+Lemma same_map_self {K V T} `{EqDec K} `{EqDec T} (f : V -> T) (m : amap K V) :
+  NoDup (keys m) -> same_map f m (map (fun e => (fst e, f (snd e))) m) = true.
+Proof.
+  intros Hnd. unfold same_map. rewrite map_length, Nat.eqb_refl. cbn [andb]. apply forallb_forall.
+  intros e Hin. apply in_map_iff in Hin. destruct Hin as ([k v] & <- & Hin). cbn [fst snd].
+  rewrite (In_get_NoDup k v m Hnd Hin). apply eqb_refl.
+Qed.
+
+Lemma same_map_id {K} `{EqDec K} (m : amap K Z) : NoDup (keys m) -> same_map (fun v : Z => v) m m = true.
+Proof.
+  intros Hnd. unfold same_map. rewrite Nat.eqb_refl. cbn [andb]. apply forallb_forall.
+  intros [k v] Hin. cbn [fst snd]. rewrite (In_get_NoDup k v m Hnd Hin). apply eqb_refl.
+Qed.
+
+Lemma same_set_self {A} `{EqDec A} (l : list A) : same_set l l = true.
+Proof.
+  unfold same_set. rewrite Nat.eqb_refl. cbn [andb]. apply forallb_forall. intros x Hin. apply existsb_eqb_in. exact Hin.
+Qed.
+
+Definition AK (s : state) : Prop := KInv s /\ NoDup (keys (ctxs s)) /\ SInv s /\ TInv s.
+
+Lemma corr_state_self univ code nc cb s : AK s -> corr_state s (obs_of univ code nc cb s) = true.
+Proof.
+  intros ((K1 & K2 & K3 & K4) & Kc & (_ & Hb) & Ht). unfold corr_state. cbn [obs_of o_height o_time o_bals o_binds o_ctxs o_reqs o_vols o_earned o_oearned o_newq o_newmark o_expq o_expmark].
+  rewrite !Z.eqb_refl, (same_map_self bind_tuple _ K1), (same_map_self ctx_tuple _ Kc), (same_map_self req_tuple _ (b_keys _ Hb)),
+    (same_map_id _ K2), (same_map_id _ (t_ek _ Ht)), (same_map_id _ (t_ok _ Ht)), !same_set_self, (same_map_id _ K3), (same_map_id _ K4).
+  cbn [andb]. rewrite !andb_true_r. apply forallb_forall. intros e Hin. apply in_map_iff in Hin. destruct Hin as (k & <- & _). apply Z.eqb_refl.
+Qed.
+
+Lemma corr_step_self univ c s st : AK (apply c s st) ->
+  corr_step s st (exec_step c s st) (apply c s st) (obs_step univ c s st) = true.
+Proof.
+  intros H. unfold corr_step, obs_step. cbn [obs_of o_code o_newctx o_cb]. rewrite Z.eqb_refl, !eqb_refl. cbn [andb].
+  apply corr_state_self. exact H.
+Qed.
+
+Lemma AK_apply c s st : fresh_ctx s st -> AK s -> AK (apply c s st).
+Proof.
+  intros Hf (K & Kc & S & T). split; [apply apply_kr; exact K|]. split; [apply apply_kc; exact Kc|].
+  split; [apply SInv_apply_m; assumption|apply TInv_apply; exact T].
+Qed.
+
+Lemma check_from_corr univ c : forall rest s, fresh_history c s rest -> AK s ->
+  forall pc pn pb seen fired tr sc i corr p7 c7 p8 c8,
+    let '(corr', _, _, _, _) :=
+      check_from c s (obs_of univ pc pn pb s) seen fired tr sc (model_trace univ c s rest) i corr p7 c7 p8 c8 in
+    corr' = corr.
+Proof.
+  induction rest as [|st r IH]; intros s Hf Ha pc pn pb seen fired tr sc i corr p7 c7 p8 c8.
+  - reflexivity.
+  - cbn [model_trace]. rewrite check_from_cons. destruct Hf as (F1 & F2). pose proof (AK_apply c s st F1 Ha) as Ha'.
+    rewrite (corr_step_self univ c s st Ha'). cbn [negb]. rewrite andb_false_r.
+    exact (IH (apply c s st) F2 Ha' (res_code (exec_step c s st)) (step_newctx s st (exec_step c s st)) (skipn (length (cblog s)) (cblog (apply c s st))) _ _ _ _ _ _ _ _ _ _).
+Qed.
+
+Lemma AK_init h0 t0 l0 : AK (init h0 t0 l0).
+Proof.
+  split; [unfold KInv; simpl; repeat split; constructor|]. split; [simpl; constructor|]. split; [apply SInv_init|apply TInv_init].
+Qed.
+
+(** the checker never sees the model diverge from its own observation *)
+Theorem model_corresponds_to_itself_lemma :
+  forall c steps h0 t0 l0 univ,
+    NoDup (create_txhs steps) ->
+    ledger_of (obs_of univ 0 None [] (init h0 t0 l0)) = l0 ->
+    let cs := model_case univ c h0 t0 l0 steps in
+    (forall corr p k, check_case_C07 cs = (corr, p, k) -> corr = -1)
+    /\ (forall corr p k, check_case_C08 cs = (corr, p, k) -> corr = -1).
+Proof.
+  intros c steps h0 t0 l0 univ Hnd Hl cs.
+  pose proof (fresh_history_from_distinct_hashes_lemma c steps h0 t0 l0 Hnd) as Hf.
+  assert (E : check_all cs = check_from c (init h0 t0 l0) (obs_of univ 0 None [] (init h0 t0 l0)) [] [] [] [] (model_trace univ c (init h0 t0 l0) steps) 1
+                (if corr_state (init h0 t0 l0) (obs_of univ 0 None [] (init h0 t0 l0)) then -1 else 0) (-1) 0 (-1) 0).
+  { subst cs. unfold check_all, model_case. rewrite Hl. reflexivity. }
+  rewrite (corr_state_self univ 0 None [] _ (AK_init h0 t0 l0)) in E.
+  pose proof (check_from_corr univ c steps (init h0 t0 l0) Hf (AK_init h0 t0 l0) 0 None [] [] [] [] [] 1 (-1) (-1) 0 (-1) 0) as G.
+  unfold check_case_C07, check_case_C08. rewrite E.
+  destruct (check_from _ _ _ _ _ _ _ _ _ _ _ _ _ _) as [[[[r1 r2] r3] r4] r5].
+  split; intros corr p k Ek; inversion Ek; subst; reflexivity.
+Qed.
